@@ -8,12 +8,12 @@ Require Import Verif.Cmds.Walk Verif.Cmds.Model.
 Local Open Scope N_scope.
 
 Definition guarded : guards :=
-  {| g_ints_target := true; g_ints_walk_once := true; g_dm_path := true; g_swagger_rest := true; g_db_path := true;
+  {| g_ints_target := true; g_ints_walk_once := true; g_dm_path := true; g_swagger_rest := true; g_sw_param_schema := true; g_oa3_ret_split := true; g_db_path := true;
      g_db_writer_path := true; g_db_progress := true; g_mseq_err := true; g_mint_app := true; g_render_recover := true |}.
 Lemma guarded_all : all_guarded guarded = true. Proof. reflexivity. Qed.
 
-Definition ep (n w:N) (cs:list call) : endpoint := {| e_name := n; e_words := w; e_calls := cs; e_acts := []; e_pass := []; e_excl := [] |}.
-Definition view (n:N) (acts pass:list N) : endpoint := {| e_name := n; e_words := 1; e_calls := []; e_acts := acts; e_pass := pass; e_excl := [] |}.
+Definition ep (n w:N) (cs:list call) : endpoint := {| e_name := n; e_words := w; e_calls := cs; e_acts := []; e_pass := []; e_excl := []; e_params := []; e_rets := [] |}.
+Definition view (n:N) (acts pass:list N) : endpoint := {| e_name := n; e_words := 1; e_calls := []; e_acts := acts; e_pass := pass; e_excl := []; e_params := []; e_rets := [] |}.
 Definition cl (a e:N) : call := {| c_app := a; c_ep := e; c_alt := false |}.
 Definition ap (n:N) (es:list endpoint) (ts:list typ) : app := {| a_name := n; a_human := false; a_eps := es; a_types := ts |}.
 Definition fk (n:N) (p:list N) : field := {| f_name := n; f_ref := Some p |}.
@@ -34,22 +34,35 @@ Definition m_self_fk : module := [ap 1 [] [tb 1 [col 1; fk 2 [1; 1]]]].
 (* A: E (an RPC endpoint: one word) *)
 Definition m_rpc : module := [ap 1 [ep 1 1 []] []].
 
-Definition no_ints_target := {| g_ints_target := false; g_ints_walk_once := true; g_dm_path := true; g_swagger_rest := true; g_db_path := true; g_db_writer_path := true; g_db_progress := true; g_mseq_err := true; g_mint_app := true; g_render_recover := true |}.
-Definition no_ints_walk := {| g_ints_target := true; g_ints_walk_once := false; g_dm_path := true; g_swagger_rest := true; g_db_path := true; g_db_writer_path := true; g_db_progress := true; g_mseq_err := true; g_mint_app := true; g_render_recover := true |}.
-Definition no_dm_path := {| g_ints_target := true; g_ints_walk_once := true; g_dm_path := false; g_swagger_rest := true; g_db_path := true; g_db_writer_path := true; g_db_progress := true; g_mseq_err := true; g_mint_app := true; g_render_recover := true |}.
-Definition no_swagger_rest := {| g_ints_target := true; g_ints_walk_once := true; g_dm_path := true; g_swagger_rest := false; g_db_path := true; g_db_writer_path := true; g_db_progress := true; g_mseq_err := true; g_mint_app := true; g_render_recover := true |}.
-Definition no_db_path := {| g_ints_target := true; g_ints_walk_once := true; g_dm_path := true; g_swagger_rest := true; g_db_path := false; g_db_writer_path := true; g_db_progress := true; g_mseq_err := true; g_mint_app := true; g_render_recover := true |}.
-Definition no_db_writer_path := {| g_ints_target := true; g_ints_walk_once := true; g_dm_path := true; g_swagger_rest := true; g_db_path := true; g_db_writer_path := false; g_db_progress := true; g_mseq_err := true; g_mint_app := true; g_render_recover := true |}.
-Definition no_db_progress := {| g_ints_target := true; g_ints_walk_once := true; g_dm_path := true; g_swagger_rest := true; g_db_path := true; g_db_writer_path := true; g_db_progress := false; g_mseq_err := true; g_mint_app := true; g_render_recover := true |}.
-Definition no_mseq_err := {| g_ints_target := true; g_ints_walk_once := true; g_dm_path := true; g_swagger_rest := true; g_db_path := true; g_db_writer_path := true; g_db_progress := true; g_mseq_err := false; g_mint_app := true; g_render_recover := true |}.
-Definition no_mint_app := {| g_ints_target := true; g_ints_walk_once := true; g_dm_path := true; g_swagger_rest := true; g_db_path := true; g_db_writer_path := true; g_db_progress := true; g_mseq_err := true; g_mint_app := false; g_render_recover := true |}.
-Definition no_render_recover := {| g_ints_target := true; g_ints_walk_once := true; g_dm_path := true; g_swagger_rest := true; g_db_path := true; g_db_writer_path := true; g_db_progress := true; g_mseq_err := true; g_mint_app := true; g_render_recover := false |}.
+(* A: /b/{ref <: Foo}: GET ?q=string   (a reference-typed URL parameter) *)
+Definition m_ref_param : module :=
+  [ap 1 [{| e_name := 1; e_words := 2; e_calls := []; e_acts := []; e_pass := []; e_excl := []; e_params := [PObj; PPrim]; e_rets := [] |}] []].
+(* A: E: return ok<:Foo *)
+Definition m_ret_nospace : module :=
+  [ap 1 [{| e_name := 1; e_words := 1; e_calls := []; e_acts := []; e_pass := []; e_excl := []; e_params := []; e_rets := [false; true] |}] []].
+
+Definition no_ints_target := {| g_ints_target := false; g_ints_walk_once := true; g_dm_path := true; g_swagger_rest := true; g_sw_param_schema := true; g_oa3_ret_split := true; g_db_path := true; g_db_writer_path := true; g_db_progress := true; g_mseq_err := true; g_mint_app := true; g_render_recover := true |}.
+Definition no_ints_walk := {| g_ints_target := true; g_ints_walk_once := false; g_dm_path := true; g_swagger_rest := true; g_sw_param_schema := true; g_oa3_ret_split := true; g_db_path := true; g_db_writer_path := true; g_db_progress := true; g_mseq_err := true; g_mint_app := true; g_render_recover := true |}.
+Definition no_dm_path := {| g_ints_target := true; g_ints_walk_once := true; g_dm_path := false; g_swagger_rest := true; g_sw_param_schema := true; g_oa3_ret_split := true; g_db_path := true; g_db_writer_path := true; g_db_progress := true; g_mseq_err := true; g_mint_app := true; g_render_recover := true |}.
+Definition no_swagger_rest := {| g_ints_target := true; g_ints_walk_once := true; g_dm_path := true; g_swagger_rest := false; g_sw_param_schema := true; g_oa3_ret_split := true; g_db_path := true; g_db_writer_path := true; g_db_progress := true; g_mseq_err := true; g_mint_app := true; g_render_recover := true |}.
+Definition no_sw_param_schema := {| g_ints_target := true; g_ints_walk_once := true; g_dm_path := true; g_swagger_rest := true; g_sw_param_schema := false; g_oa3_ret_split := true; g_db_path := true; g_db_writer_path := true; g_db_progress := true; g_mseq_err := true; g_mint_app := true; g_render_recover := true |}.
+Definition no_oa3_ret_split := {| g_ints_target := true; g_ints_walk_once := true; g_dm_path := true; g_swagger_rest := true; g_sw_param_schema := true; g_oa3_ret_split := false; g_db_path := true; g_db_writer_path := true; g_db_progress := true; g_mseq_err := true; g_mint_app := true; g_render_recover := true |}.
+Definition no_db_path := {| g_ints_target := true; g_ints_walk_once := true; g_dm_path := true; g_swagger_rest := true; g_sw_param_schema := true; g_oa3_ret_split := true; g_db_path := false; g_db_writer_path := true; g_db_progress := true; g_mseq_err := true; g_mint_app := true; g_render_recover := true |}.
+Definition no_db_writer_path := {| g_ints_target := true; g_ints_walk_once := true; g_dm_path := true; g_swagger_rest := true; g_sw_param_schema := true; g_oa3_ret_split := true; g_db_path := true; g_db_writer_path := false; g_db_progress := true; g_mseq_err := true; g_mint_app := true; g_render_recover := true |}.
+Definition no_db_progress := {| g_ints_target := true; g_ints_walk_once := true; g_dm_path := true; g_swagger_rest := true; g_sw_param_schema := true; g_oa3_ret_split := true; g_db_path := true; g_db_writer_path := true; g_db_progress := false; g_mseq_err := true; g_mint_app := true; g_render_recover := true |}.
+Definition no_mseq_err := {| g_ints_target := true; g_ints_walk_once := true; g_dm_path := true; g_swagger_rest := true; g_sw_param_schema := true; g_oa3_ret_split := true; g_db_path := true; g_db_writer_path := true; g_db_progress := true; g_mseq_err := false; g_mint_app := true; g_render_recover := true |}.
+Definition no_mint_app := {| g_ints_target := true; g_ints_walk_once := true; g_dm_path := true; g_swagger_rest := true; g_sw_param_schema := true; g_oa3_ret_split := true; g_db_path := true; g_db_writer_path := true; g_db_progress := true; g_mseq_err := true; g_mint_app := false; g_render_recover := true |}.
+Definition no_render_recover := {| g_ints_target := true; g_ints_walk_once := true; g_dm_path := true; g_swagger_rest := true; g_sw_param_schema := true; g_oa3_ret_split := true; g_db_path := true; g_db_writer_path := true; g_db_progress := true; g_mseq_err := true; g_mint_app := true; g_render_recover := false |}.
 
 Theorem ints_target_refuted : run no_ints_target m_dangling_app true (fuel_bound m_dangling_app) (CInts 9 []) = Panic SIntsTarget.
 Proof. vm_compute. reflexivity. Qed.
 Theorem dm_path_refuted : run no_dm_path m_short_ref true (fuel_bound m_short_ref) (CDmDirect true) = Panic SDmPath.
 Proof. vm_compute. reflexivity. Qed.
 Theorem swagger_rest_refuted : run no_swagger_rest m_rpc true (fuel_bound m_rpc) (CSwagger None) = Panic SSwaggerSplit.
+Proof. vm_compute. reflexivity. Qed.
+Theorem sw_param_schema_refuted : run no_sw_param_schema m_ref_param true (fuel_bound m_ref_param) (CSwagger None) = Panic SSwaggerParam.
+Proof. vm_compute. reflexivity. Qed.
+Theorem oa3_ret_split_refuted : run no_oa3_ret_split m_ret_nospace true (fuel_bound m_ret_nospace) (COpenapi3 (Some 1)) = Panic SOa3RetSplit.
 Proof. vm_compute. reflexivity. Qed.
 Theorem db_path_refuted : run no_db_path m_short_ref true (fuel_bound m_short_ref) (CDbCreate [1]) = Panic SDbPath.
 Proof. vm_compute. reflexivity. Qed.
@@ -69,8 +82,8 @@ Example guarded_on_witnesses :
   map (fun mc => fine (run guarded (fst mc) false (fuel_bound (fst mc)) (snd mc)))
       [(m_dangling_app, CInts 9 []); (m_short_ref, CDmDirect true); (m_rpc, CSwagger None); (m_short_ref, CDbCreate [1]);
        (m_dangling_app, CMSeq 1 1); (m_dangling_ep, CMSeq 1 1); (m_dangling_app, CMInt None); (m_rpc, CMInt None);
-       (m_self_fk, CDbCreate [1]); (m_pass_cycle, CInts 9 [])]
-  = [true; true; true; true; true; true; true; true; true; true].
+       (m_self_fk, CDbCreate [1]); (m_pass_cycle, CInts 9 []); (m_ref_param, CSwagger None); (m_ret_nospace, COpenapi3 (Some 1))]
+  = [true; true; true; true; true; true; true; true; true; true; true; true].
 Proof. vm_compute. reflexivity. Qed.
 
 (* a self-referential foreign key: without the progress test every pass leaves the table incomplete *)
